@@ -2,6 +2,7 @@ package sx
 
 import (
 	"fmt"
+	"net"
 	"go/token"
 	"go/types"
 
@@ -101,6 +102,21 @@ func (m *Machine) strEq(a, b value) value {
 	tb, bT := b.(*tstr)
 	if aT || bT {
 		if !(aT && bT) {
+			t, other := ta, b
+			if bT {
+				t, other = tb, a
+			}
+			if s, ok := other.(string); ok && t.format == "ip4" {
+				ip := net.ParseIP(s).To4()
+				if ip == nil || ip.String() != s {
+					return false
+				}
+				var acc value = true
+				for i := 0; i < 4; i++ {
+					acc = m.and(acc, m.equals(nil, t.args[i], uint64(ip[i])))
+				}
+				return acc
+			}
 			m.unsupported("comparison of formatted tuple string with ordinary string")
 		}
 		if ta.format != tb.format || len(ta.args) != len(tb.args) {
